@@ -12,7 +12,7 @@ import (
 
 func init() {
 	register("C29", propMeta{
-		Explanation:  "Every type-switch case of btree.Compare and every closure returned by btree.CoerceComparer is reduced to its shape and checked: both operands are asserted to the case's own type (first parameter -> x, second -> y); scalar cases return exactly one whitelisted total order applied to (x, y) in that argument order (cmp.Compare, bytes.Compare on the full byte ranges, sop.UUID.Compare = bytes.Compare, time.Time.Compare); slice cases have the lexicographic shape (element comparison, by a whitelisted order or the recursive Compare, over indexes below min(len x, len y), first non-zero result returned, then cmp.Compare(len x, len y)). The order axioms (reflexive, antisymmetric, transitive, consistent with the natural order) follow because each whitelisted function is a total order on its type (cmp.Compare orders NaN below all numbers and treats NaN==NaN, -0==+0) and total orders are closed under lexicographic product; that argument is fixed, the instances are re-checked on every run. (R2) the case sets of Compare, CoerceComparer and IsPrimitive coincide (except []any, which IsPrimitive omits).",
+		Explanation:  "Every type-switch case of btree.Compare and every closure returned by btree.CoerceComparer is reduced to its shape and checked: both operands are asserted to the case's own type (first parameter -> x, second -> y); scalar cases return exactly one whitelisted total order applied to (x, y) in that argument order (cmp.Compare, bytes.Compare on the full byte ranges, sop.UUID.Compare = bytes.Compare, time.Time.Compare); slice cases have the lexicographic shape (element comparison, by a whitelisted order or the recursive Compare, over indexes below min(len x, len y), first non-zero result returned, then cmp.Compare(len x, len y)). The order axioms (reflexive, antisymmetric, transitive, consistent with the natural order) follow because each whitelisted function is a total order on its type (cmp.Compare orders NaN below all numbers and treats NaN==NaN, -0==+0) and total orders are closed under lexicographic product; that argument is fixed, the instances are re-checked on every run. (R2) the case sets of Compare, CoerceComparer and IsPrimitive coincide (except []any, which IsPrimitive omits). (R3) nil operands: following the fallback comparison's nil tests with both operands nil reaches only `return 0` among constant returns, and with exactly one operand nil the two argument orders return opposite signs.",
 		DoesNotCover: "Operands of different dynamic types (excluded by the property), user-supplied Comparer implementations, and the default branch's string fallback.",
 	}, runC29)
 }
